@@ -5,7 +5,28 @@ NOTES = ("All checks: cd /verif && ./check <ID> --tier quick|thorough; they impo
 
 _PENDING = "check not built yet in this round; DESIGN.md section 5 describes the planned generated-input check (to be claimed when it exists)"
 
+_PRINTER_NOTE = ("Trusted: the reference printer vlib/printer.py (Marlin-1.1-like interpreter, self-tested at the start of every run), "
+                 "the independent reader vlib/gread.py, the closed geometric tests of vlib/geom.py and the episode oracle in vlib/core.py. "
+                 "Cases are truncated at the first move destination inside the oracle's border band (1e-6 mm; 0 in the trivial frame). "
+                 "Arcs: I/J form, absolute positioning only (open findings for R form / G91 arcs).")
+
 CHECKS = [
+    {"id": "C01", "technique": "property-based testing (Hypothesis): generated programs x regions x region-edit histories, forwarded stream executed on a reference printer and checked against a geometric episode oracle",
+     "design_ref": "DESIGN.md 5/C01",
+     "level_text": "Generated-input search with an independent oracle over whole programs; thousands of distinct episodes per run, shrinks to a JSON replay. Exploration: no absence claim.",
+     "level_note": _PRINTER_NOTE},
+    {"id": "C03", "technique": "property-based testing (Hypothesis): differential execution filtered vs unfiltered stream on a reference printer, Z-ordering invariant over the exit sequence",
+     "design_ref": "DESIGN.md 5/C03",
+     "level_text": "Generated-input search comparing the printer state reached through the filter with the state the unfiltered file produces after every move outside all regions. Exploration.",
+     "level_note": _PRINTER_NOTE},
+    {"id": "C04", "technique": "property-based testing (Hypothesis): differential execution of E coordinate, pushed filament and deposited plastic, filtered vs unfiltered, on a reference printer",
+     "design_ref": "DESIGN.md 5/C04",
+     "level_text": "Generated-input search over retraction histories (matched equal-length cycles, G92 E anywhere, mm/inch) with a differential oracle. Exploration.",
+     "level_note": _PRINTER_NOTE + " Domain: absolute extrusion mode (no E word while G91 is active with G90-influences-extruder on)."},
+    {"id": "C05", "technique": "property-based testing (Hypothesis): invariants on physical retraction depth (filament high-water mark minus position) filtered vs unfiltered, firmware-retraction parity",
+     "design_ref": "DESIGN.md 5/C05",
+     "level_text": "Generated-input search over long alternations of retract / recover / enter / exit with depth invariants I1-I3 and an exactly-once recovery check. Exploration.",
+     "level_note": _PRINTER_NOTE},
     {"id": "C17", "technique": "property-based testing (Hypothesis) against exact rational arithmetic and probe-point soundness oracle",
      "design_ref": "DESIGN.md 5/C17",
      "level_text": "Generated search over region pairs and probe points with an exact-arithmetic oracle; finds any membership/containment error larger than a few ulp on the explored inputs, does not prove absence.",
